@@ -9,7 +9,7 @@ CONFIG = dict(
                "configured-or-inherited parameters incl. advertised capabilities (params_inherited[_dynamic]), role derivation, "
                "mirror-image negotiation and feature-iff-both, send-max = codec add-path tx (S26), GR/LLGR symmetry, and the "
                "dynamic-neighbour GC invariant over ALL histories; plus the master theorem that the C16 reference checker "
-               "(written from the property text) accepts every model run except two recorded open findings.  The model is "
+               "(written from the property text) accepts every model run except one recorded open finding (F16c).  The model is "
                "tied to the code by running the real accept_connection over real loopback sockets (127.x.y.z / ::1 sources), "
                "the real PeerSession::run (the OPEN is read back from the wire), the real gRPC handlers, PeerFsm and "
                "PeerCodec::negotiate on the same generated cases, diffing every observation, with the reference checker as "
@@ -39,8 +39,8 @@ CONFIG = dict(
         "Rbgp.Accept.Props.advertised_mode_unanimous",
         "Rbgp.Accept.Props.sendmax_agrees_with_codec",
         "Rbgp.Accept.Props.gr_negotiation_symmetric",
-        "Rbgp.Accept.Props.llgr_negotiation_symmetric",
-        "Rbgp.Accept.Props.llgr_symmetric_full_fails",
+        "Rbgp.Accept.Props.llgr_symmetric_full",
+        "Rbgp.Accept.Props.llgr_in_force_iff",
         "Rbgp.Accept.Props.reach_inv",
         "Rbgp.Accept.Props.dynamic_peer_gc",
         "Rbgp.Accept.Props.dynamic_peer_removed_with_last_connection",
@@ -53,7 +53,10 @@ CONFIG = dict(
          "family): MP, add-path tuples with modes 0-3 and invalid 4/5/7/255, duplicates and conflicting tuples, add-path "
          "without MP, ext-nexthop tuples with right/wrong AFIs, ext-message, 4-octet AS, GR (any flags/time, duplicate "
          "families), LLGR (zero / non-zero times, duplicate families, several capabilities), unknown capabilities, with a "
-         "configured send-max; plus a systematic single-family add-path mode-pair sub-stream; (2) prefix/address pairs for "
+         "configured send-max; plus a systematic single-family add-path mode-pair sub-stream and a systematic per-feature "
+         "sub-stream (MP, add-path rx, add-path tx, ext-nexthop, GR, LLGR each drawn per family independently from {neither, "
+         "local only, remote only, both} over three IPv4-AFI families + IPv6: disjoint / overlapping / nested family sets, "
+         "tuples in one capability or split over several, shuffled capability order); (2) prefix/address pairs for "
          "IPv4 and IPv6 with masks 0..len, out-of-range masks, bit flips at the mask boundary, host bits set in the prefix, "
          "other address family; (3) histories: global AS, optional confederation, 0-3 peer groups (overlapping / "
          "non-canonical / IPv6 dynamic prefixes, duplicate names), 0-3 configured neighbours (own vs inherited settings, "
@@ -156,6 +159,65 @@ def gen_neg_addpath_pair(r):
             caps = caps[1:]          # add-path without the family itself
         return "(" + " ".join(caps) + ")"
     return "(neg %s %s (sm (%d %d)))" % (side(), side(), f, r.pick([1, 2, 4]))
+
+
+MC4 = 65538
+SYS_FAMS = [IPV4, VPN4, MC4, IPV6]
+
+
+def gen_neg_systematic(r):
+    """every per-family feature gets, independently per family, one of {neither, local only, remote only, both}
+    over a universe with three IPv4-AFI families (so disjoint / overlapping / nested family sets all occur);
+    tuples are put into one capability or split over several, capabilities are shuffled"""
+    fams = list(SYS_FAMS) if r.chance(1, 2) else [IPV4, VPN4, MC4]
+    def combo(both_w=1):
+        return r.weighted([(0, 1), (1, 1), (2, 1), (3, both_w)])
+    feat = {}
+    for f in fams:
+        feat[f] = dict(mp=combo(5), rx=combo(), tx=combo(), enh=combo(), gr=combo(), llgr=combo())
+    def side(bit):
+        caps = []
+        has = lambda f, k: feat[f][k] & bit != 0
+        for f in fams:
+            if has(f, "mp"):
+                caps.append("(mp %d)" % f)
+        # add-path: the local rx direction needs local bit0 + remote bit1, the local tx direction local bit1 + remote bit0
+        ap = []
+        for f in fams:
+            if bit == 1:
+                m = (1 if has(f, "rx") else 0) | (2 if has(f, "tx") else 0)
+            else:
+                m = (2 if has(f, "rx") else 0) | (1 if has(f, "tx") else 0)
+            if m or r.chance(1, 4):
+                ap.append((f, m))
+        enh = [(f, 2 if r.chance(9, 10) else r.pick([1, 3])) for f in fams if has(f, "enh")]
+        grf = [(f, r.pick([0, 128])) for f in fams if has(f, "gr")]
+        ll = [(f, r.pick([0, 128]), r.pick([0, 5, 600, 600])) for f in fams if has(f, "llgr")]
+        def emit(name, tuples, fmt):
+            if not tuples:
+                return
+            if r.chance(1, 2) or len(tuples) == 1:
+                caps.append("(%s %s)" % (name, " ".join(fmt % t for t in tuples)))
+            else:                                  # split capability: one tuple each
+                for t in tuples:
+                    caps.append("(%s %s)" % (name, fmt % t))
+        emit("addpath", ap, "(%d %d)")
+        emit("enh", enh, "(%d %d)")
+        if grf or r.chance(1, 6):
+            caps.append("(gr %d %d (%s))" % (r.pick([0, 4, 8, 12]), r.pick([90, 120]), pairs(grf)))
+        if ll or r.chance(1, 6):
+            caps.append("(llgr %s)" % " ".join("(%d %d %d)" % t for t in ll))
+        if r.chance(2, 3):
+            caps.append("extmsg")
+        if r.chance(2, 3):
+            caps.append("(as4 %d)" % r.pick([65001, 65002]))
+        # shuffle (Fisher-Yates with the one PRNG)
+        for i in range(len(caps) - 1, 0, -1):
+            j = r.below(i + 1)
+            caps[i], caps[j] = caps[j], caps[i]
+        return "(" + " ".join(caps) + ")"
+    sm = pairs([(f, r.pick([1, 2, 4])) for f in fams if r.chance(1, 2)])
+    return "(neg %s %s (sm %s))" % (side(1), side(2), sm)
 
 
 def hexb(bs):
@@ -284,8 +346,8 @@ def gen_malformed(r):
 
 
 def gen_case(r):
-    k = r.weighted([("neg", 30), ("negap", 12), ("contains", 14), ("hist", 40), ("bad", 4)])
-    return {"neg": gen_neg, "negap": gen_neg_addpath_pair, "contains": gen_contains, "hist": gen_hist, "bad": gen_malformed}[k](r)
+    k = r.weighted([("neg", 22), ("negap", 8), ("negsys", 16), ("contains", 14), ("hist", 36), ("bad", 4)])
+    return {"neg": gen_neg, "negap": gen_neg_addpath_pair, "negsys": gen_neg_systematic, "contains": gen_contains, "hist": gen_hist, "bad": gen_malformed}[k](r)
 
 
 def gen(seed, n, tier):
